@@ -207,6 +207,7 @@ def run_gen(args, PROP, gen_kind, modes, rule, extra_assumptions, extra_coverage
                 found.append((r["job"], None, None, P + "/fail", "run %s failed: err=%r %s" % (r["job"]["name"], d["err"], " | ".join((d["failed_lines"] or [])[:2])[:1500])))
 
     exit_code = 0
+    flaky = []
     lines = []
     known_lines = {}
     reported = set()
@@ -217,7 +218,7 @@ def run_gen(args, PROP, gen_kind, modes, rule, extra_assumptions, extra_coverage
         if k:
             known_lines[k["id"]] = known_lines.get(k["id"], 0) + 1
             continue
-        if cls in reported or len(reported) >= 2:
+        if cls in reported or len(reported) >= 2 or len(flaky) + len(collateral) >= 8:
             continue
         reported.add(cls)
         path = os.path.join(VERIF, "replays", "%s-%s-%s.json" % (PROP, job["name"], ci))
@@ -233,8 +234,11 @@ def run_gen(args, PROP, gen_kind, modes, rule, extra_assumptions, extra_coverage
                 reported.discard(cls)
                 continue
             if same != 3:
-                print("case g%s of %s: %s reproduced %d/3 times when run alone; %s" % (ci, job["name"], cls, same, detail[:600]))
-                vcheck.infra("engine-N failure did not replay deterministically")
+                # does not replay exactly when run alone (goroutine choice inside the protocol stacks is the Go
+                # scheduler's): never reported as a violation; another failing case of the run may replay exactly
+                flaky.append("case g%s of %s: %s reproduced %d/3 times when run alone; %s" % (ci, job["name"], cls, same, detail[:600]))
+                reported.discard(cls)
+                continue
             small = shrink(binp, job, tape, work, want)
             rr = rerun_single(binp, job, small, work, "minimal")
             dd = rr["data"] or {}
@@ -246,6 +250,10 @@ def run_gen(args, PROP, gen_kind, modes, rule, extra_assumptions, extra_coverage
         lines += ["VIOLATION property=%s replay=%s" % (PROP, path), "  class: " + cls, "  detail: " + detail[:3500]]
         exit_code = 1
 
+    if exit_code == 0 and flaky:
+        for f in flaky[:5]:
+            print(f)
+        vcheck.infra("engine-N failure(s) did not replay deterministically and no other failure did")
     wall = time.time() - t0
     if not args.no_evidence:
         ev = {
